@@ -14,6 +14,7 @@ every C08V2 history theorem a theorem about the composite.
 -/
 import Proofs.Lib2Sim
 import Proofs.Lib2Exec
+import Properties.C07V2
 import Proofs.V2MembersQueries
 import Proofs.V2ForestQueries
 import Proofs.V2Run
@@ -240,6 +241,34 @@ theorem C08Lib2_add_requires_live_track (ops : FOps) (s : Schema2) (L : Lib2) (c
       simp [EngineModel.Db.V2.step, hc, ht', EngineModel.Db.V2.exn]
     rw [hs]; rfl
   rw [this]
+
+/-- **A removed crate (with its whole subtree) is gone for good**, along every later history of the composite —
+track calls, crate calls, creations included (Playlist ids are AUTOINCREMENT): `is_valid()` of the stale handle is
+false and `crate_by_id` finds nothing, so no later call can add to or list the removed crate. -/
+theorem C08Lib2_removed_crate_gone (ops : FOps) (s : Schema2) (uuid : Bytes) (pre later : List Call)
+    (hp : pre.all Call.admissible = true) (hl : later.all Call.admissible = true) (c x : Int)
+    (hc : EngineModel.Db.V2.qValid (run ops s (Lib2.empty s uuid) pre).crates c = true)
+    (hx : x = c ∨ ∃ l, EngineModel.Db.V2.qDescendants (run ops s (Lib2.empty s uuid) pre).crates c = .ok l ∧ x ∈ l) :
+    let L' := run ops s (Lib2.empty s uuid) (pre ++ [.removeCrate c] ++ later)
+    (step ops s L' (.crateIsValid x)).2 = .ok (.bool false) ∧ (step ops s L' (.crateById x)).2 = .ok (.oid none) := by
+  intro L'
+  have hall : (pre ++ [Call.removeCrate c] ++ later).all Call.admissible = true := by
+    simp only [List.all_append, hp, hl, Bool.and_true, Bool.true_and]; rfl
+  have h0 := (libInv_empty s uuid).toLibCore
+  have hpre := crates_run ops s h0 pre hp
+  have hrun := crates_run ops s h0 (pre ++ [.removeCrate c] ++ later) hall
+  rw [empty_crates] at hpre hrun
+  have hone : crateHist ops s (run ops s (Lib2.empty s uuid) pre) [Call.removeCrate c] = [.removeCrate c] := rfl
+  rw [crateHist_append, crateHist_append, hone, v2_run_append, v2_run_append] at hrun
+  rw [hpre] at hc hx
+  have key := (EngineModel.Properties.C07V2.C07V2_removed_subtree_gone _ c hc x hx
+    (crateHist ops s (run ops s (Lib2.empty s uuid) (pre ++ [Call.removeCrate c])) later)).2
+  have hv : EngineModel.Db.V2.qValid L'.crates x = false := by
+    show EngineModel.Db.V2.qValid (run ops s (Lib2.empty s uuid) (pre ++ [.removeCrate c] ++ later)).crates x = false
+    rw [hrun]; exact key
+  constructor
+  · simp only [step]; unfold crateQuery; simp only [hv]; rfl
+  · simp only [step]; unfold crateQuery; simp only [hv]; rfl
 
 /-! ### non-vacuity: ids of crates, tracks and entity rows all differ; a foreign entry shares a track id -/
 
